@@ -284,6 +284,8 @@ class Verdict:
         for key, what in self.known_seen:
             print("KNOWN-FINDING: property=%s %s" % (self.pid, what))
         self.coverage["known_findings_reobserved"] = [k for k, _ in self.known_seen]
+        if not self.coverage.get("samples"):
+            self.coverage["samples"] = [{"violation": self.violations[0][0][:500]} if self.violations else {"note": "no sample recorded"}]
         if self.notes:
             self.coverage["notes"] = self.notes
         ev = {
